@@ -511,12 +511,8 @@ class IndexOps:
             raise KeyError(how)
         # scoping: datetime64 objects held in a non-datetime (object) index get the library's documented loose
         # date matching on lookup; such indices are not generated (DESIGN 9, corrections)
-        if m.unit is not None and how in ('astype', 'relabel'):
-            return 'skip'
         if how == 'level_add' and any(isinstance(x, np.datetime64) and np.datetime_data(x.dtype)[0] == 'ns' for x in m.raw):
             return 'skip'  # known: 2-D values of a hierarchy present nanosecond labels as integers (KNOWN_FINDINGS: audit C02/violation7)
-        if o is not None and (m.unit is None) != (oe.model.unit is None):
-            return 'skip'
         st, r = call(mk)
         if st == 'raise':
             self.stats['derive_raise:' + how] += 1
@@ -646,8 +642,6 @@ class IndexOps:
             if st == 'raise' or pos != list(range(len(exp_labels))):
                 fail(o, f'positions {pos!r:.300}')
             for i, lab in enumerate(m.raw):
-                if m.unit is None and isinstance(lab, np.datetime64):
-                    continue  # datetime64 held in a non-datetime index: the library's loose date matching applies (scoped out, DESIGN 9)
                 st, p = call(obj.loc_to_iloc, lab)
                 if st == 'raise' or not isinstance(p, (int, np.integer)) or int(p) != i:
                     fail(o, f'loc_to_iloc({lab!r}) -> {p!r}, expected {i}')
